@@ -751,7 +751,10 @@ func removeFiles(dir string, fnames []string) error {
 	for _, fname := range fnames {
 		verifOnRemove(path.Join(dir, fname))
 		err := os.Remove(path.Join(dir, fname))
-		if err != nil {
+		if err != nil && !os.IsNotExist(err) {
+			// A file that is already gone (for example removed just now
+			// by the asynchronous cleanup of a previous store instance
+			// on the same directory) needs no removal.
 			return err
 		}
 	}
